@@ -103,19 +103,28 @@ func (p *VarHeaderPostprocessor) substr(args []string) (func(in string) string, 
 		}
 	}
 	return func(in string) string {
+		// bounds are applied to copies: the closure is called for every response and the value
+		// comes from the peer, so it may be shorter than the configured bounds
 		l := len(in)
-		if start < 0 {
-			start = l + start
+		from, to := start, end
+		if from < 0 {
+			from = l + from
 		}
-		if end <= 0 {
-			end = l + end
+		if to <= 0 {
+			to = l + to
 		}
-		if end > l {
-			end = l
+		if from > to {
+			from, to = to, from
 		}
-		if start > end {
-			start, end = end, start
+		if from < 0 {
+			from = 0
 		}
-		return in[start:end]
+		if to > l {
+			to = l
+		}
+		if from > to {
+			from = to
+		}
+		return in[from:to]
 	}, nil
 }
